@@ -1,36 +1,43 @@
-"""E14: decision tables — a control-flow-insensitive normal form of small functions, and equivalence against a reference.
+"""E14: decision tables — a control-flow-insensitive normal form of statement sequences, and equivalence of two of them.
 
-A function body is turned into the set of its paths through the if/else structure.  Each path carries
-  * the list of (boolean formula, polarity) literals it took, every formula built from normalised *atoms*,
-  * the trace of its effects (calls with side effects, stores to attributes / subscripts, loops and try blocks as nested
-    tables), with every local temporary substituted by its definition, and
-  * how it ends (return <expr> / raise <expr> / falls off / break / continue).
-Two functions are *equivalent* when, for every truth assignment of the union of their atoms, the paths selected on both
-sides have equal traces and exits.  That relation does not see: if/elif vs nested if vs guard clauses with early return,
-`and` vs nested ifs, De Morgan rewrites, `==`/`!=`, `is None`/`== None`, `a > b`/`b < a`, introduction or removal of local
-temporaries, renaming of locals, string building by `+` / `format` / `%` / f-strings, `await`, logging / tracing / metrics
-statements, docstrings, comments and layout, and extraction of a block into a local or same-class helper (helpers that the
-reference does not know are inlined).  It does see: a changed, added, removed or reordered effect, a changed argument, a
-negated / weakened / strengthened / swapped guard, a changed constant, operator or default.
+A statement sequence is turned into the set of its paths through the if/else structure.  Each path carries
+  * the (boolean formula, polarity) literals it took, every formula built from normalised *atoms*,
+  * the trace of its effects in order: calls that are not known to be pure (`$rK = f(..)`), constructions of fresh mutable
+    objects (`$oK = {..}`), stores to attributes / subscripts, deletions, loops and try blocks (as nested tables), with
+    every local temporary substituted by its definition and every call result / fresh object given a canonical name by
+    evaluation order (so a temporary that is used twice and an expression that is evaluated twice are told apart),
+  * how it ends (return <expr> / raise <expr> / falls off / break / continue) and the final value of the locals.
+Two sequences are *interchangeable* when every pair of paths (one from each side) whose conditions can hold together has
+equal traces, equal exits, equal final values of the names that are read afterwards, and evaluates no shared condition on
+different sides of an effect.  That relation does not see: if/elif vs nested if vs guard clauses with early return, `and`
+vs nested ifs, De Morgan rewrites, `==`/`!=`, `is None`/`== None`, `a > b`/`b < a`, `len(x) == 0`/`not x`, introduction or
+removal of local temporaries, renaming of locals / loop variables / comprehension variables, string building by `+` /
+`format` / `%` / f-strings, `await`, logging / tracing / metrics statements, docstrings, annotations, a list / dict
+comprehension vs the explicit loop, `d.pop(k, None)` vs test-read-delete, boolean flag vs early exit, and extraction of a
+block into a helper that only one side has (inlined, also inside conditions when the helper is pure).  It does see: a
+changed, added, removed or reordered effect, a changed argument, a negated / weakened / strengthened / swapped guard, a
+changed constant, operator or default, a second evaluation of a call, a second object where there was one.
 
-No code of the repository is run: both sides are `ast` trees; the reference is a snippet held in the rule that owns it and
-states what the property demands of that function (the oracle is the property / the protocol the function implements, not
-today's text — a reference is only written for functions whose whole behaviour is a necessary condition of the property).
+Nothing of the repository is run: both sides are `ast` trees.
 """
 import ast
 import copy
 import itertools
 
 LOGGY = ("logger", "logging", "statsd", "opentracing", "tracer", "span", "scope", "metrics_logger")
-PURE_FUNCS = {"len", "isinstance", "str", "int", "float", "bool", "dict", "list", "tuple", "set", "frozenset", "min", "max", "sorted", "sum", "abs", "round",
-              "range", "enumerate", "zip", "iter", "type", "repr", "hasattr", "getattr", "callable", "any", "all", "ord", "chr", "id", "reversed", "map", "filter",
-              "bytes", "bytearray", "divmod", "format", "hash", "issubclass", "next"}
+PURE_FUNCS = {"len", "isinstance", "str", "int", "float", "bool", "tuple", "frozenset", "min", "max", "sum", "abs", "round",
+              "range", "enumerate", "zip", "iter", "type", "repr", "hasattr", "getattr", "callable", "any", "all", "ord", "chr", "id", "reversed",
+              "bytes", "divmod", "format", "hash", "issubclass", "next", "sorted", "_concat"}
 PURE_METHODS = {"get", "startswith", "endswith", "format", "split", "rsplit", "join", "lower", "upper", "strip", "lstrip", "rstrip", "replace", "encode", "decode",
-                "keys", "values", "items", "partition", "rpartition", "find", "rfind", "index", "count", "copy", "capitalize", "title", "isdigit", "isalpha",
+                "keys", "values", "items", "partition", "rpartition", "find", "rfind", "index", "count", "capitalize", "title", "isdigit", "isalpha",
                 "isalnum", "zfill", "splitlines", "casefold", "ljust", "rjust", "timestamp", "total_seconds", "isoformat", "group", "groups", "match", "search",
                 "fullmatch", "hexdigest", "digest"}
-PURE_DOTTED = {"json.dumps", "json.loads", "time.time", "os.environ.get", "os.path.join", "re.compile", "re.match", "re.search", "re.escape", "re.fullmatch",
-               "copy.deepcopy", "math.floor", "math.ceil", "math.pow", "base64.b64encode", "base64.b64decode", "uuid.uuid4", "datetime.now", "stdjson.loads", "stdjson.dumps"}
+PURE_DOTTED = {"json.dumps", "os.environ.get", "os.path.join", "re.compile", "re.match", "re.search", "re.escape", "re.fullmatch",
+               "math.floor", "math.ceil", "math.pow", "base64.b64encode", "base64.b64decode", "stdjson.dumps"}
+# not pure on purpose: time.time / uuid4 / random (a second evaluation gives another value); json.loads / deepcopy / dict() / list() / set()
+# and displays (a second evaluation gives another object: they are `alloc` effects with a canonical object name)
+ALLOC_FUNCS = {"dict", "list", "set", "bytearray", "OrderedDict", "defaultdict"}
+ALLOC_DOTTED = {"json.loads", "stdjson.loads", "copy.deepcopy", "copy.copy", "collections.OrderedDict"}
 
 
 class TooComplex(Exception):
@@ -39,8 +46,7 @@ class TooComplex(Exception):
 
 # ---------------------------------------------------------------------------------------------------------- expressions
 
-def _is_loggy_call(call):
-    f = call.func
+def _chain_names(f):
     parts = []
     while isinstance(f, (ast.Attribute, ast.Call, ast.Subscript)):
         if isinstance(f, ast.Attribute):
@@ -52,14 +58,72 @@ def _is_loggy_call(call):
             f = f.value
     if isinstance(f, ast.Name):
         parts.append(f.id)
-    return any(any(w in p for w in LOGGY) for p in parts) or (isinstance(call.func, ast.Name) and call.func.id == "print")
+    return parts
+
+
+LOGGY_EXACT = {"logger", "logging", "statsd", "opentracing", "tracer", "metrics_logger", "log"}
+
+
+def _is_loggy_call(call):
+    parts = _chain_names(call.func)
+    if isinstance(call.func, ast.Name):
+        return call.func.id == "print"
+    # receiver chain (everything but the method name itself): self.logger.info(..), logging.getLogger(..).debug(..), span.set_tag(..), scope.close()
+    recv = parts[1:]
+    return any(p in LOGGY_EXACT or p.endswith("_logger") for p in recv) or (bool(recv) and recv[-1] in ("span", "scope") and len(recv) == 1)
+
+
+def _dotted(node):
+    parts = []
+    while isinstance(node, ast.Attribute):
+        parts.append(node.attr)
+        node = node.value
+    if isinstance(node, ast.Name):
+        parts.append(node.id)
+        return ".".join(reversed(parts))
+    return None
+
+
+def is_pure_call(call):
+    f = call.func
+    if isinstance(f, ast.Name):
+        return f.id in PURE_FUNCS or (f.id[:1].isupper() and f.id.endswith(("Error", "Exception", "Failure")))
+    if isinstance(f, ast.Attribute):
+        d = _dotted(f)
+        if d in PURE_DOTTED:
+            return True
+        if d in ALLOC_DOTTED:
+            return False
+        if f.attr in PURE_METHODS:
+            return True
+    return False
+
+
+def is_alloc_call(call):
+    f = call.func
+    if isinstance(f, ast.Name):
+        return f.id in ALLOC_FUNCS
+    return _dotted(f) in ALLOC_DOTTED if isinstance(f, ast.Attribute) else False
+
+
+def _const_display(n):
+    if isinstance(n, ast.Call) and isinstance(n.func, ast.Name) and n.func.id in ("frozenset", "set", "tuple", "list") and len(n.args) == 1 and not n.keywords:
+        return _const_display(n.args[0])
+    return isinstance(n, (ast.Tuple, ast.List, ast.Set)) and all(isinstance(e, ast.Constant) for e in n.elts)
+
+
+def _const_elts(n):
+    while isinstance(n, ast.Call):
+        n = n.args[0]
+    return n.elts
 
 
 class _Subst(ast.NodeTransformer):
-    """substitute locals by their definitions; strip await; canonicalise string building"""
+    """substitute locals by their definitions; strip await; alpha-normalise comprehension variables"""
 
     def __init__(self, env):
         self.env = env
+        self.ncomp = 0
 
     def visit_Name(self, node):
         if isinstance(node.ctx, ast.Load) and node.id in self.env:
@@ -78,22 +142,40 @@ class _Subst(ast.NodeTransformer):
     visit_SetComp = visit_DictComp = visit_GeneratorExp = visit_ListComp
 
     def _comp(self, node):
-        # names bound by the comprehension shadow the environment
-        bound = set()
+        bound = []
         for g in node.generators:
             for n in ast.walk(g.target):
-                if isinstance(n, ast.Name):
-                    bound.add(n.id)
+                if isinstance(n, ast.Name) and n.id not in bound:
+                    bound.append(n.id)
         saved = self.env
-        self.env = {k: v for k, v in saved.items() if k not in bound}
+        inner = dict(saved)
+        ren = {}
+        for b in bound:
+            ren[b] = "_c%d" % self.ncomp
+            self.ncomp += 1
+            inner[b] = ast.Name(ren[b], ast.Load())
         try:
-            return self.generic_visit(node)
+            for i, g in enumerate(node.generators):
+                # the first iterable is evaluated in the enclosing scope
+                self.env = saved if i == 0 else inner
+                g.iter = self.visit(g.iter)
+                self.env = inner
+                for n in ast.walk(g.target):
+                    if isinstance(n, ast.Name) and n.id in ren:
+                        n.id = ren[n.id]
+                g.ifs = [self.visit(x) for x in g.ifs]
+            self.env = inner
+            if isinstance(node, ast.DictComp):
+                node.key, node.value = self.visit(node.key), self.visit(node.value)
+            else:
+                node.elt = self.visit(node.elt)
+            return node
         finally:
             self.env = saved
 
 
 def _concat_parts(node):
-    """flatten string building into a list of parts (Constant str or expression) or None if `node` is not string building"""
+    """flatten string building into a list of parts, or None if `node` is not string building"""
     if isinstance(node, ast.JoinedStr):
         out = []
         for v in node.values:
@@ -113,8 +195,7 @@ def _concat_parts(node):
         return None
     if isinstance(node, ast.Call) and isinstance(node.func, ast.Attribute) and node.func.attr == "format" and isinstance(node.func.value, ast.Constant) \
             and isinstance(node.func.value.value, str) and not node.keywords:
-        tmpl = node.func.value.value
-        pieces = tmpl.split("{}")
+        pieces = node.func.value.value.split("{}")
         if len(pieces) - 1 != len(node.args) or "{" in "".join(pieces) or "}" in "".join(pieces):
             return None
         out = []
@@ -122,13 +203,11 @@ def _concat_parts(node):
             if p:
                 out.append(ast.Constant(p))
             if i < len(node.args):
-                a = node.args[i]
-                out.extend(_concat_parts(a) or [a])
+                out.extend(_concat_parts(node.args[i]) or [node.args[i]])
         return out
     if isinstance(node, ast.BinOp) and isinstance(node.op, ast.Mod) and isinstance(node.left, ast.Constant) and isinstance(node.left.value, str):
-        tmpl = node.left.value
         args = node.right.elts if isinstance(node.right, ast.Tuple) else [node.right]
-        pieces = tmpl.split("%s")
+        pieces = node.left.value.split("%s")
         if len(pieces) - 1 != len(args) or "%" in "".join(pieces):
             return None
         out = []
@@ -142,7 +221,7 @@ def _concat_parts(node):
 
 
 class _Canon(ast.NodeTransformer):
-    """algebraic normal forms of expressions (applied bottom-up after substitution)"""
+    """algebraic normal forms of expressions (applied after substitution)"""
 
     def visit_BinOp(self, node):
         parts = _concat_parts(node)
@@ -160,8 +239,9 @@ class _Canon(ast.NodeTransformer):
         parts = _concat_parts(node)
         if parts is not None:
             return self._concat(parts)
-        node = self.generic_visit(node)
-        # str(<str concat>) == the concat; bool(bool(x)) etc. are left alone
+        return self.generic_visit(node)
+
+    def visit_Lambda(self, node):
         return node
 
     def _concat(self, parts):
@@ -194,9 +274,37 @@ class _Canon(ast.NodeTransformer):
                 return ast.Compare(l if none_r else r, [ast.IsNot()], [ast.Constant(None)])
         return node
 
+    def visit_IfExp(self, node):
+        node = self.generic_visit(node)
+        # `True if c else False` is bool(c); `a if a else b` is `a or b`
+        if isinstance(node.body, ast.Constant) and node.body.value is True and isinstance(node.orelse, ast.Constant) and node.orelse.value is False:
+            return ast.Call(ast.Name("bool", ast.Load()), [node.test], [])
+        if ast.dump(node.test) == ast.dump(node.body):
+            return ast.BoolOp(ast.Or(), [node.body, node.orelse])
+        return node
+
+
+def _replace_node(root, target, repl):
+    """copy of `root` in which the node `target` (by identity) is replaced by `repl`"""
+    if root is target:
+        return repl
+
+    def rec(n):
+        if n is target:
+            return repl
+        if not isinstance(n, ast.AST):
+            return n
+        new = copy.copy(n)
+        for fld, val in ast.iter_fields(n):
+            if isinstance(val, list):
+                setattr(new, fld, [rec(x) for x in val])
+            elif isinstance(val, ast.AST):
+                setattr(new, fld, rec(val))
+        return new
+    return rec(root)
+
 
 def norm_expr(node, env):
-    """normalised AST of an expression under the substitution `env`"""
     n = _Subst(env).visit(copy.deepcopy(node))
     n = _Canon().visit(n)
     return ast.fix_missing_locations(n)
@@ -210,55 +318,30 @@ def text(node):
     return " ".join(ast.unparse(node).split())
 
 
-def impure_calls(node):
-    """calls in `node` (evaluation order approximated by source order) that may have effects"""
-    out = []
-    for n in ast.walk(node):
-        if isinstance(n, ast.Lambda):
-            continue
-        if isinstance(n, ast.Call) and not is_pure_call(n):
-            out.append(n)
-    out.sort(key=lambda c: (getattr(c, "end_lineno", 0), getattr(c, "end_col_offset", 0)))
-    return out
-
-
-def is_pure_call(call):
-    f = call.func
-    if isinstance(f, ast.Name):
-        return f.id in PURE_FUNCS or f.id == "_concat" or (f.id[:1].isupper() and f.id.endswith(("Error", "Exception", "Failure")))
-    if isinstance(f, ast.Attribute):
-        d = _dotted(f)
-        if d in PURE_DOTTED:
-            return True
-        if f.attr in PURE_METHODS:
-            return True
-    return False
-
-
-def _dotted(node):
-    parts = []
-    while isinstance(node, ast.Attribute):
-        parts.append(node.attr)
-        node = node.value
-    if isinstance(node, ast.Name):
-        parts.append(node.id)
-        return ".".join(reversed(parts))
-    return None
-
-
 # ---------------------------------------------------------------------------------------------------------- formulas
 
 def formula(node):
     """boolean formula over atoms: ('atom', text) | ('not', f) | ('and', [f]) | ('or', [f]) | ('const', bool)"""
     if isinstance(node, ast.BoolOp):
-        fs = [formula(v) for v in node.values]
-        return ("and" if isinstance(node.op, ast.And) else "or", fs)
+        return ("and" if isinstance(node.op, ast.And) else "or", [formula(v) for v in node.values])
     if isinstance(node, ast.UnaryOp) and isinstance(node.op, ast.Not):
         return ("not", formula(node.operand))
     if isinstance(node, ast.Constant):
         return ("const", bool(node.value))
     if isinstance(node, ast.Compare) and len(node.ops) == 1:
         op, l, r = node.ops[0], node.left, node.comparators[0]
+        # len(x) == 0 / len(x) > 0 ... are the truth value of a sized container
+        for a, b, flip in ((l, r, False), (r, l, True)):
+            if isinstance(a, ast.Call) and isinstance(a.func, ast.Name) and a.func.id == "len" and len(a.args) == 1 and isinstance(b, ast.Constant) and type(b.value) is int:
+                truth = ("atom", "bool(%s)" % text(a.args[0]))
+                k = b.value
+                o = type(op)
+                if flip:
+                    o = {ast.Lt: ast.Gt, ast.Gt: ast.Lt, ast.LtE: ast.GtE, ast.GtE: ast.LtE}.get(o, o)
+                if (o is ast.Eq and k == 0) or (o is ast.LtE and k == 0) or (o is ast.Lt and k == 1):
+                    return ("not", truth)
+                if (o is ast.NotEq and k == 0) or (o is ast.Gt and k == 0) or (o is ast.GtE and k == 1):
+                    return truth
         lt, rt = text(l), text(r)
         if isinstance(op, ast.Eq):
             a, b = sorted((lt, rt))
@@ -271,8 +354,8 @@ def formula(node):
         if isinstance(op, ast.IsNot):
             return ("not", ("atom", "%s is %s" % (lt, rt)))
         if isinstance(op, ast.In):
-            if isinstance(r, (ast.Tuple, ast.List, ast.Set)) and r.elts and all(isinstance(e, ast.Constant) for e in r.elts):
-                return ("or", [("atom", "%s == %s" % tuple(sorted((lt, text(e))))) for e in r.elts])
+            if _const_display(r) and _const_elts(r):
+                return ("or", [("atom", "%s == %s" % tuple(sorted((lt, text(e))))) for e in _const_elts(r)])
             return ("atom", "%s in %s" % (lt, rt))
         if isinstance(op, ast.NotIn):
             return ("not", formula(ast.Compare(l, [ast.In()], [r])))
@@ -297,7 +380,7 @@ def formula(node):
     if isinstance(node, ast.IfExp):
         c, a, b = formula(node.test), formula(node.body), formula(node.orelse)
         return ("or", [("and", [c, a]), ("and", [("not", c), b])])
-    return ("atom", text(node))
+    return ("atom", "bool(%s)" % text(node))
 
 
 def atoms_of(f, out=None):
@@ -336,61 +419,47 @@ def ftext(f):
     return "(" + (" %s " % k).join(ftext(g) for g in f[1]) + ")"
 
 
+def _to_ast(f):
+    k = f[0]
+    if k == "atom":
+        return ast.parse(f[1].replace("$", "__D_"), mode="eval").body
+    if k == "const":
+        return ast.Constant(f[1])
+    if k == "not":
+        return ast.UnaryOp(ast.Not(), _to_ast(f[1]))
+    return ast.BoolOp(ast.And() if k == "and" else ast.Or(), [_to_ast(g) for g in f[1]])
+
+
 # ---------------------------------------------------------------------------------------------------------- tables
 
 class Path:
-    __slots__ = ("cond", "trace", "exit", "env")
+    __slots__ = ("cond", "trace", "exit", "env", "nres", "nobj", "retval")
 
-    def __init__(self, cond=(), trace=(), exit=None, env=None):
+    def __init__(self, cond=(), trace=(), exit=None, env=None, nres=0, nobj=0):
         self.cond, self.trace, self.exit, self.env = list(cond), list(trace), exit, dict(env or {})
+        self.nres, self.nobj, self.retval = nres, nobj, None
 
     def fork(self):
-        return Path(self.cond, self.trace, self.exit, self.env)
+        p = Path(self.cond, self.trace, self.exit, self.env, self.nres, self.nobj)
+        p.retval = self.retval
+        return p
 
 
 class Table:
-    """the normal form of a statement list"""
-
     def __init__(self, paths):
         self.paths = paths
-
-    def atoms(self):
-        out = set()
-        for p in self.paths:
-            for f, _ in p.cond:
-                atoms_of(f, out)
-            for ev in p.trace:
-                _event_atoms(ev, out, top=False)
-        return out
-
-    def top_atoms(self):
-        out = set()
-        for p in self.paths:
-            for f, _ in p.cond:
-                atoms_of(f, out)
-        return out
-
-    def select(self, asg):
-        for p in self.paths:
-            if all(evalf(f, asg) == pol for f, pol in p.cond):
-                return p
-        return None
 
     def describe(self, limit=12):
         out = []
         for p in self.paths[:limit]:
             out.append("if %s: %s => %s" % (" and ".join(("" if pol else "not ") + ftext(f) for f, pol in p.cond) or "True",
-                                             "; ".join(event_text(e) for e in p.trace) or "-", exit_text(p.exit)))
+                                             "; ".join(event_text(e) for e in p.trace if e[0] != "test") or "-", exit_text(p.exit)))
         return out
-
-
-def _event_atoms(ev, out, top):
-    pass
 
 
 def event_text(ev):
     k = ev[0]
-    if k in ("call", "del", "yield"):
+    if k in ("call", "del", "yield", "alloc", "test", "with"):
         return "%s %s" % (k, ev[1])
     if k == "store":
         return "%s = %s" % (ev[1], ev[2])
@@ -400,12 +469,10 @@ def event_text(ev):
         return "for %s in %s {%s}" % (ev[1], ev[2], " | ".join(ev[3].describe(6)))
     if k == "while":
         return "while %s {%s}" % (ev[1], " | ".join(ev[2].describe(6)))
-    if k == "with":
-        return "with %s" % ev[1]
     if k == "endwith":
         return "endwith"
     if k == "try":
-        return "try#%d" % ev[1]
+        return "try#%d raised %s after one of %s" % (ev[1], ev[2], list(ev[3])[:2])
     return str(ev)
 
 
@@ -415,10 +482,68 @@ def exit_text(ex):
     return "%s %s" % (ex[0], ex[1]) if len(ex) > 1 and ex[1] is not None else ex[0]
 
 
+class _Eval(ast.NodeTransformer):
+    """evaluate an already substituted expression on a path: every call that is not known pure and every construction of a fresh mutable
+    object becomes an event with a canonical result name (by evaluation order) and is replaced by that name"""
+
+    def __init__(self, summ, path):
+        self.s, self.p = summ, path
+
+    def visit_Lambda(self, node):
+        return node
+
+    def visit_Call(self, node):
+        node = self.generic_visit(node)
+        if _is_loggy_call(node):
+            return ast.Constant(None)
+        if is_pure_call(node):
+            return node
+        if is_alloc_call(node):
+            return self._obj(node)
+        nm = "$r%d" % self.p.nres
+        self.p.nres += 1
+        self.p.trace.append(("call", "%s = %s" % (nm, text(node))))
+        return ast.Name(nm, ast.Load())
+
+    def _obj(self, node):
+        nm = "$o%d" % self.p.nobj
+        self.p.nobj += 1
+        self.p.trace.append(("alloc", "%s = %s" % (nm, text(node))))
+        return ast.Name(nm, ast.Load())
+
+    def visit_Dict(self, node):
+        return self._obj(self.generic_visit(node))
+
+    def visit_List(self, node):
+        if isinstance(node.ctx, ast.Store):
+            return node
+        return self._obj(self.generic_visit(node))
+
+    def visit_Set(self, node):
+        return self._obj(self.generic_visit(node))
+
+    def visit_Compare(self, node):
+        # a display of constants as the right operand of `in` is a membership test, not an object anybody can alias
+        node.left = self.visit(node.left)
+        node.comparators = [c if (_const_display(c) and isinstance(op, (ast.In, ast.NotIn))) else self.visit(c) for op, c in zip(node.ops, node.comparators)]
+        return node
+
+    def visit_ListComp(self, node):
+        # opaque: one fresh object; its element expressions are part of the text
+        node.generators[0].iter = self.visit(node.generators[0].iter)
+        return self._obj(node)
+
+    visit_SetComp = visit_DictComp = visit_ListComp
+
+    def visit_GeneratorExp(self, node):
+        node.generators[0].iter = self.visit(node.generators[0].iter)
+        return node
+
+
 class Summariser:
-    def __init__(self, func_node, helpers=None, keep=(), max_paths=400, class_node=None, module_funcs=None, opaque_params=True):
-        """helpers: name -> FunctionDef that may be inlined (nested functions are added automatically);
-        keep: names of callables that must NOT be inlined (the reference names them too)"""
+    def __init__(self, func_node, helpers=None, keep=(), max_paths=600, extra_carried=()):
+        """helpers: name -> FunctionDef that may be inlined ('name' for plain calls, 'self.name' for method calls; nested
+        functions of func_node are added); keep: names of callables that must NOT be inlined"""
         self.func = func_node
         self.helpers = dict(helpers or {})
         self.keep = set(keep)
@@ -429,7 +554,7 @@ class Summariser:
         for n in func_node.body:
             if isinstance(n, (ast.FunctionDef, ast.AsyncFunctionDef)):
                 self.helpers.setdefault(n.name, n)
-        self.carried = self._carried_names(func_node)
+        self.carried = self._carried_names(func_node) | set(extra_carried)
 
     # -- which locals are loop-carried (cannot be substituted across iterations)
     def _carried_names(self, func):
@@ -446,13 +571,10 @@ class Summariser:
                         for n in ast.walk(s.target):
                             if isinstance(n, ast.Name):
                                 assigned.discard(n.id)
-                    # read before written inside the body (textual order), or read in the loop test / after the loop
-                    seen_w = set()
-                    rbw = set()
-                    nodes = []
+                    seen_w, rbw, nodes = set(), set(), []
                     for b in ([s.test] if isinstance(s, ast.While) else []) + s.body:
-                        nodes.extend(sorted((n for n in ast.walk(b) if isinstance(n, ast.Name)), key=lambda n: (n.lineno, n.col_offset, isinstance(n.ctx, ast.Store))))
-                    # an augmented assignment reads its target
+                        nodes.extend(sorted((n for n in ast.walk(b) if isinstance(n, ast.Name)),
+                                            key=lambda n: (getattr(n, "lineno", 0), getattr(n, "col_offset", 0), isinstance(n.ctx, ast.Store))))
                     for b in s.body:
                         for n in ast.walk(b):
                             if isinstance(n, ast.AugAssign) and isinstance(n.target, ast.Name):
@@ -463,9 +585,13 @@ class Summariser:
                         elif n.id in assigned and n.id not in seen_w:
                             rbw.add(n.id)
                     after = set()
-                    for n in ast.walk(func):
-                        if isinstance(n, ast.Name) and isinstance(n.ctx, ast.Load) and n.id in assigned and getattr(n, "lineno", 0) > s.end_lineno:
-                            after.add(n.id)
+                    end = getattr(s, "end_lineno", None)
+                    if end is not None:
+                        for n in ast.walk(func):
+                            if isinstance(n, ast.Name) and isinstance(n.ctx, ast.Load) and n.id in assigned and getattr(n, "lineno", 0) > end:
+                                after.add(n.id)
+                    else:
+                        after = set(assigned)
                     carried.update(rbw & assigned)
                     carried.update(after)
                 for fld in ("body", "orelse", "finalbody"):
@@ -479,12 +605,50 @@ class Summariser:
         return carried
 
     # -- entry
-    def table(self):
-        env = {}
-        paths = self._seq(self.func.body, [Path(env=env)], in_loop=False)
+    def table(self, start=None):
+        paths = self._seq(self.func.body, [start or Path()], in_loop=False)
         return Table(paths)
 
-    # -- statements
+    def _ev(self, p, node):
+        """substitute, normalise, then evaluate `node` on path p; -> AST in which effects are replaced by canonical names"""
+        n = norm_expr(node, p.env)
+        n = self._inline_pure_helpers(n)
+        return _Eval(self, p).visit(n)
+
+    def _ev_multi(self, p, node, in_loop=False, depth=0):
+        """like _ev, but helpers with effects that are called somewhere inside `node` are inlined first (their paths fork the path)
+        -> list of (path, value AST)"""
+        target = None
+        if self.helpers and depth < 4:
+            for n in ast.walk(node):
+                if isinstance(n, ast.Lambda):
+                    continue
+                if isinstance(n, ast.Call) and not _is_loggy_call(n):
+                    h, _ = self._resolve_helper(n)
+                    if h is not None:
+                        target = n
+                        break
+        if target is None:
+            return [(p, self._ev(p, node))]
+        # a pure helper is handled inside _ev; an effectful one is expanded here
+        inl = self._try_inline(target, p, in_loop)
+        if inl is None:
+            return [(p, self._ev(p, node))]
+        outs = []
+        for q, rv in inl:
+            if q.exit is not None:
+                outs.append((q, None))
+                continue
+            rv = rv if rv is not None else ast.Constant(None)
+            hole = "__hole%d" % depth
+            repl = _replace_node(node, target, ast.Name(hole, ast.Load()))
+            q.env[hole] = rv
+            sub = self._ev_multi(q, repl, in_loop, depth + 1)
+            for r, v in sub:
+                r.env.pop(hole, None)
+                outs.append((r, v))
+        return outs
+
     def _seq(self, stmts, paths, in_loop):
         for s in stmts:
             nxt = []
@@ -498,20 +662,6 @@ class Summariser:
                 raise TooComplex("more than %d paths" % self.max_paths)
         return paths
 
-    def _emit_calls(self, p, node_norm, whole=None):
-        """emit the impure calls contained in a normalised expression (inner first); `whole` = the statement-level call, emitted last"""
-        for c in impure_calls(node_norm):
-            if _is_loggy_call(c):
-                continue
-            t = text(c)
-            ev = ("call", t)
-            # the same call text emitted by the immediately preceding definition of a temp is not emitted twice
-            if p.trace and p.trace[-1] == ev and whole is not c:
-                continue
-            if ("call", t) in p.trace[-6:] and c is not whole and any(t == text(v) or t in text(v) for v in p.env.values()):
-                continue
-            p.trace.append(ev)
-
     def _stmt(self, s, p, in_loop):
         if isinstance(s, (ast.Pass, ast.Global, ast.Nonlocal, ast.Import, ast.ImportFrom, ast.Assert, ast.FunctionDef, ast.AsyncFunctionDef, ast.ClassDef)):
             return [p]
@@ -522,23 +672,19 @@ class Summariser:
             if isinstance(v, ast.Constant):
                 return [p]
             if isinstance(v, (ast.Yield, ast.YieldFrom)):
-                val = norm_expr(v.value, p.env) if v.value is not None else None
-                if val is not None:
-                    self._emit_calls(p, val)
+                val = self._ev(p, v.value) if v.value is not None else None
                 p.trace.append(("yield", ("from " if isinstance(v, ast.YieldFrom) else "") + text(val)))
                 return [p]
             if isinstance(v, ast.Call):
                 if _is_loggy_call(v):
                     return [p]
+                pop = self._as_pop(v, p)
+                if pop is not None:
+                    return [q for q, _ in pop]
                 inl = self._try_inline(v, p, in_loop)
                 if inl is not None:
                     return [q for q, _ in inl]
-                n = norm_expr(v, p.env)
-                self._emit_calls(p, n, whole=n)
-                return [p]
-            n = norm_expr(v, p.env)
-            self._emit_calls(p, n)
-            return [p]
+            return [q for q, _ in self._ev_multi(p, v, in_loop)]
         if isinstance(s, (ast.Assign, ast.AnnAssign)):
             if isinstance(s, ast.AnnAssign):
                 if s.value is None:
@@ -548,31 +694,35 @@ class Summariser:
                 targets, value = s.targets, s.value
             while isinstance(value, ast.Await):
                 value = value.value
-            outs = [(p, None)]
+            # name = [elt for x in xs if c]  ==  name = []; for x in xs: if c: name.append(elt)
+            if len(targets) == 1 and isinstance(targets[0], ast.Name) and isinstance(value, (ast.ListComp, ast.DictComp, ast.SetComp)) and len(value.generators) == 1 \
+                    and not value.generators[0].is_async:
+                return self._seq(self._desugar_comp(targets[0].id, value), [p], in_loop)
+            outs = None
             if isinstance(value, ast.Call) and not _is_loggy_call(value):
-                inl = self._try_inline(value, p, in_loop)
-                if inl is not None:
-                    outs = inl
+                outs = self._as_pop(value, p)
+                if outs is None:
+                    outs = self._try_inline(value, p, in_loop)
+            if outs is None:
+                outs = [(p, None)]
             res = []
             for q, rv in outs:
                 if q.exit is not None:
                     res.append(q)
                     continue
-                vn = rv if rv is not None else norm_expr(value, q.env)
-                if rv is None:
-                    self._emit_calls(q, vn)
-                for t in targets:
-                    self._assign(t, vn, q, in_loop)
-                res.append(q)
+                if rv is not None:
+                    vals = [(q, rv)]
+                else:
+                    vals = self._ev_multi(q, value, in_loop)
+                for r, vn in vals:
+                    if r.exit is None:
+                        for t in targets:
+                            self._assign(t, vn, r, in_loop)
+                    res.append(r)
             return res
         if isinstance(s, ast.AugAssign):
-            cur = ast.Name(s.target.id, ast.Load()) if isinstance(s.target, ast.Name) else copy.deepcopy(s.target)
-            if not isinstance(s.target, ast.Name):
-                for n in ast.walk(cur):
-                    if hasattr(n, "ctx"):
-                        n.ctx = ast.Load()
-            vn = norm_expr(ast.BinOp(cur, s.op, s.value), p.env)
-            self._emit_calls(p, vn)
+            cur = self._load(s.target)
+            vn = self._ev(p, ast.BinOp(cur, s.op, s.value))
             self._assign(s.target, vn, p, in_loop)
             return [p]
         if isinstance(s, ast.Delete):
@@ -580,30 +730,35 @@ class Summariser:
                 if isinstance(t, ast.Name):
                     p.env.pop(t.id, None)
                 else:
-                    tn = norm_expr(self._load(t), p.env)
-                    self._emit_calls(p, tn)
-                    p.trace.append(("del", text(tn)))
+                    p.trace.append(("del", text(self._ev(p, self._load(t)))))
             return [p]
         if isinstance(s, ast.Return):
             v = s.value
             while isinstance(v, ast.Await):
                 v = v.value
             if isinstance(v, ast.Call) and not _is_loggy_call(v):
-                inl = self._try_inline(v, p, in_loop)
+                inl = self._as_pop(v, p) or self._try_inline(v, p, in_loop)
                 if inl is not None:
                     res = []
                     for q, rv in inl:
                         if q.exit is None:
-                            q.exit = ("return", text(rv) if rv is not None else "None")
+                            q.retval = rv if rv is not None else ast.Constant(None)
+                            q.exit = ("return", text(q.retval))
                         res.append(q)
                     return res
-            vn = norm_expr(v, p.env) if v is not None else None
-            if vn is not None:
-                self._emit_calls(p, vn)
-            p.exit = ("return", _ret_text(vn))
-            return [p]
+            if v is None:
+                p.retval = ast.Constant(None)
+                p.exit = ("return", "None")
+                return [p]
+            res = []
+            for q, vn in self._ev_multi(p, v, in_loop):
+                if q.exit is None:
+                    q.retval = vn
+                    q.exit = ("return", text(vn))
+                res.append(q)
+            return res
         if isinstance(s, ast.Raise):
-            vn = norm_expr(s.exc, p.env) if s.exc is not None else None
+            vn = self._ev(p, s.exc) if s.exc is not None else None
             p.exit = ("raise", text(vn) if vn is not None else "<re-raise>")
             return [p]
         if isinstance(s, ast.Break):
@@ -613,11 +768,24 @@ class Summariser:
             p.exit = ("continue", None)
             return [p]
         if isinstance(s, ast.If):
-            tn = norm_expr(s.test, p.env)
-            self._emit_calls(p, tn)
+            multi = self._ev_multi(p, s.test, in_loop)
+            if len(multi) != 1 or multi[0][0] is not p:
+                outs = []
+                for q, tn in multi:
+                    if q.exit is not None:
+                        outs.append(q)
+                        continue
+                    outs.extend(self._if(s, q, tn, in_loop))
+                return outs
+            return self._if(s, p, multi[0][1], in_loop)
+        if False:
+            tn = None
             f = formula(tn)
             outs = []
             known = self._known(f, p)
+            if known is None:
+                for a in sorted(atoms_of(f)):
+                    p.trace.append(("test", a))
             if known is not False:
                 a = p.fork()
                 if known is None:
@@ -630,27 +798,29 @@ class Summariser:
                 outs.extend(self._seq(s.orelse, [b], in_loop))
             return outs
         if isinstance(s, (ast.For, ast.AsyncFor)):
-            itn = norm_expr(s.iter, p.env)
-            self._emit_calls(p, itn)
+            itn = self._ev(p, s.iter)
+            self.nloop += 1
             body_env = dict(p.env)
+            tnames = []
             for n in ast.walk(s.target):
-                if isinstance(n, ast.Name):
-                    body_env.pop(n.id, None)
-            for c in self.carried:
-                pass
-            sub = Table(self._seq(s.body, [Path(env=body_env)], in_loop=True))
-            for q in sub.paths:
-                q.env = {}
-            p.trace.append(("for", text(s.target), text(itn), sub))
+                if isinstance(n, ast.Name) and n.id not in tnames:
+                    tnames.append(n.id)
+            for k, nm in enumerate(tnames):
+                body_env[nm] = ast.Name("$i%d_%d" % (self.nloop, k), ast.Load())
+            tt = text(_Subst({nm: body_env[nm] for nm in tnames}).visit(self._load(s.target)))
+            start = Path(env=body_env, nres=p.nres, nobj=p.nobj)
+            sub = Table(self._seq(s.body, [start], in_loop=True))
+            p.trace.append(("for", tt, text(itn), sub))
+            self._forget_assigned(s, p)
+            for nm in tnames:
+                p.env[nm] = body_env[nm]
             if s.orelse:
                 return self._seq(s.orelse, [p], in_loop)
-            self._forget_assigned(s, p)
             return [p]
         if isinstance(s, ast.While):
             tn = norm_expr(s.test, {k: v for k, v in p.env.items() if k not in self.carried})
-            sub = Table(self._seq(s.body, [Path(env=dict(p.env))], in_loop=True))
-            for q in sub.paths:
-                q.env = {}
+            start = Path(env=dict(p.env), nres=p.nres, nobj=p.nobj)
+            sub = Table(self._seq(s.body, [start], in_loop=True))
             p.trace.append(("while", ftext(formula(tn)), sub))
             self._forget_assigned(s, p)
             if s.orelse:
@@ -658,14 +828,12 @@ class Summariser:
             return [p]
         if isinstance(s, (ast.With, ast.AsyncWith)):
             for it in s.items:
-                cn = norm_expr(it.context_expr, p.env)
-                if _is_loggy_call(cn) if isinstance(cn, ast.Call) else False:
+                if isinstance(it.context_expr, ast.Call) and _is_loggy_call(it.context_expr):
                     continue
-                p.trace.append(("with", text(cn) + ((" as " + text(it.optional_vars)) if it.optional_vars is not None else "")))
+                cn = self._ev(p, it.context_expr)
+                p.trace.append(("with", text(cn)))
                 if it.optional_vars is not None:
-                    for n in ast.walk(it.optional_vars):
-                        if isinstance(n, ast.Name):
-                            p.env.pop(n.id, None)
+                    self._assign(it.optional_vars, cn, p, in_loop)
             outs = self._seq(s.body, [p], in_loop)
             for q in outs:
                 if q.exit is None:
@@ -675,25 +843,25 @@ class Summariser:
             self.ntry += 1
             k = self.ntry
             entry = p.fork()
-            htypes = []
-            for h in s.handlers:
-                htypes.append(text(h.type) if h.type is not None else "BaseException")
+            htypes = [text(h.type) if h.type is not None else "BaseException" for h in s.handlers]
             normal = p
             for t in htypes:
                 normal.cond.append((("atom", "try#%d raises %s" % (k, t)), False))
             outs = self._seq(s.body, [normal], in_loop)
             if s.orelse:
                 outs = self._seq(s.orelse, outs, in_loop)
+            body_fx = self._body_effects(s.body, entry) if s.handlers else ()
             for i, h in enumerate(s.handlers):
                 q = entry.fork()
                 for j, t in enumerate(htypes):
                     q.cond.append((("atom", "try#%d raises %s" % (k, t)), j == i))
                     if j == i:
                         break
-                # effects of the try body that precede the raising statement are not known: mark them
-                q.trace.append(("try", k, htypes[i], self._body_effects(s.body, entry)))
+                # the effects of the try body that precede the raising statement are not known: record the body's effects in the
+                # event, so that moving an effect into / out of the try block is seen
+                q.trace.append(("try", k, htypes[i], body_fx))
                 if h.name:
-                    q.env.pop(h.name, None)
+                    q.env[h.name] = ast.Name("$e%d" % k, ast.Load())
                 outs.extend(self._seq(h.body, [q], in_loop))
             if s.finalbody:
                 res = []
@@ -705,17 +873,54 @@ class Summariser:
                         res.append(r)
                 outs = res
             return outs
-        if isinstance(s, ast.Match):
-            raise TooComplex("match statement")
         raise TooComplex("statement %s" % type(s).__name__)
 
+    def _if(self, s, p, tn, in_loop):
+        f = formula(tn)
+        outs = []
+        known = self._known(f, p)
+        if known is None:
+            for a in sorted(atoms_of(f)):
+                p.trace.append(("test", a))
+        if known is not False:
+            a = p.fork()
+            if known is None:
+                a.cond.append((f, True))
+            outs.extend(self._seq(s.body, [a], in_loop))
+        if known is not True:
+            b = p.fork()
+            if known is None:
+                b.cond.append((f, False))
+            outs.extend(self._seq(s.orelse, [b], in_loop))
+        return outs
+
+    def _desugar_comp(self, name, comp):
+        g = comp.generators[0]
+        if isinstance(comp, ast.ListComp):
+            init = ast.List([], ast.Load())
+            add = ast.Expr(ast.Call(ast.Attribute(ast.Name(name, ast.Load()), "append", ast.Load()), [comp.elt], []))
+        elif isinstance(comp, ast.SetComp):
+            init = ast.Call(ast.Name("set", ast.Load()), [], [])
+            add = ast.Expr(ast.Call(ast.Attribute(ast.Name(name, ast.Load()), "add", ast.Load()), [comp.elt], []))
+        else:
+            init = ast.Dict([], [])
+            add = ast.Assign([ast.Subscript(ast.Name(name, ast.Load()), comp.key, ast.Store())], comp.value)
+        body = add
+        for c in reversed(g.ifs):
+            body = ast.If(c, [body], [])
+        loop = ast.For(g.target, g.iter, [body], [])
+        out = [ast.Assign([ast.Name(name, ast.Store())], init), loop]
+        for n in out:
+            ast.fix_missing_locations(n)
+        return out
+
     def _body_effects(self, body, entry):
-        """the effect trace of the try body on its straight normal path, as text (so that moving an effect into / out of the try is seen)"""
         try:
             sub = Summariser.__new__(Summariser)
             sub.__dict__.update(self.__dict__)
-            paths = sub._seq(body, [Path(env=dict(entry.env))], in_loop=False)
-            return tuple(sorted({"; ".join(event_text(e) for e in q.trace) for q in paths}))
+            paths = sub._seq(body, [entry.fork()], in_loop=False)
+            n0 = len(entry.trace)
+            return tuple(sorted({"; ".join(event_text(e) for e in q.trace[n0:] if e[0] != "test") for q in paths}))
         except TooComplex:
             return ("<complex>",)
 
@@ -747,24 +952,72 @@ class Summariser:
                 for i, t in enumerate(target.elts):
                     self._assign(t, ast.Subscript(vn, ast.Constant(i), ast.Load()), p, in_loop)
             return
-        tn = norm_expr(self._load(target), p.env)
+        if isinstance(target, ast.Starred):
+            self._assign(target.value, vn, p, in_loop)
+            return
+        tn = self._ev(p, self._load(target))
         p.trace.append(("store", text(tn), text(vn)))
 
     def _known(self, f, p):
-        """truth of formula f if the path already decided it (same formula text, or a single atom decided)"""
         ft = ftext(f)
         for g, pol in p.cond:
-            if ftext(g) == ft:
+            gt = ftext(g)
+            if gt == ft:
                 return pol
             if g[0] == "not" and ftext(g[1]) == ft:
                 return not pol
-            if f[0] == "not" and ftext(f[1]) == ftext(g):
+            if f[0] == "not" and ftext(f[1]) == gt:
                 return not pol
         if f[0] == "const":
             return f[1]
+        # decided by the literals the path has already fixed?
+        fixed = {}
+        for g, pol in p.cond:
+            v = pol
+            while g[0] == "not":
+                g, v = g[1], not v
+            if g[0] == "atom":
+                fixed[g[1]] = v
+            elif g[0] == "or" and not v:
+                for h in g[1]:
+                    if h[0] == "atom":
+                        fixed[h[1]] = False
+            elif g[0] == "and" and v:
+                for h in g[1]:
+                    if h[0] == "atom":
+                        fixed[h[1]] = True
+        ats = atoms_of(f)
+        if ats and ats <= set(fixed):
+            return evalf(f, fixed)
         return None
 
-    # -- inlining of helpers the reference does not know
+    # -- d.pop(k, default): remove the member if it is there
+    def _as_pop(self, call, p):
+        if not (isinstance(call.func, ast.Attribute) and call.func.attr == "pop" and len(call.args) == 2 and not call.keywords):
+            return None
+        d = self._ev(p, call.func.value)
+        k = self._ev(p, call.args[0])
+        dflt = self._ev(p, call.args[1])
+        f = ("atom", "%s in %s" % (text(k), text(d)))
+        known = self._known(f, p)
+        outs = []
+        if known is None:
+            p.trace.append(("test", f[1]))
+        if known is not False:
+            a = p.fork()
+            if known is None:
+                a.cond.append((f, True))
+            item = ast.Subscript(d, k, ast.Load())
+            a.trace.append(("del", text(item)))
+            outs.append((a, item))
+        if known is not True:
+            b = p.fork()
+            if known is None:
+                b.cond.append((f, False))
+            outs.append((b, dflt))
+        return outs
+
+    # -- inlining of helpers only one side has
     def _resolve_helper(self, call):
         f = call.func
         if isinstance(f, ast.Name) and f.id in self.helpers and f.id not in self.keep:
@@ -774,6 +1027,31 @@ class Summariser:
             return self.helpers["self." + f.attr], True
         return None, False
 
+    def _bind(self, h, is_method, argvals, kwvals):
+        params = [a.arg for a in h.args.posonlyargs + h.args.args]
+        if is_method and params and params[0] in ("self", "cls"):
+            params = params[1:]
+        if h.args.vararg or h.args.kwarg:
+            return None
+        bind = {}
+        for name, a in zip(params, argvals):
+            bind[name] = a
+        kwonly = [a.arg for a in h.args.kwonlyargs]
+        for k, v in kwvals.items():
+            if k in params or k in kwonly:
+                bind[k] = v
+            else:
+                return None
+        defaults = h.args.defaults
+        for name, d in zip(params[len(params) - len(defaults):], defaults):
+            bind.setdefault(name, d)
+        for a, d in zip(h.args.kwonlyargs, h.args.kw_defaults):
+            if d is not None:
+                bind.setdefault(a.arg, d)
+        if len(argvals) > len(params) or any(n not in bind for n in params + kwonly):
+            return None
+        return bind
+
     def _try_inline(self, call, p, in_loop):
         """-> list of (path, return value AST or None) or None when the call is not inlined"""
         h, is_method = self._resolve_helper(call)
@@ -781,85 +1059,109 @@ class Summariser:
             return None
         if any(isinstance(a, ast.Starred) for a in call.args) or any(k.arg is None for k in call.keywords):
             return None
-        params = [a.arg for a in h.args.posonlyargs + h.args.args]
-        if is_method and params and params[0] in ("self", "cls"):
-            params = params[1:]
-        if h.args.vararg or h.args.kwarg:
+        if any(isinstance(n, (ast.Yield, ast.YieldFrom)) for n in ast.walk(h)):
             return None
-        defaults = h.args.defaults
-        bind = {}
-        for name, a in zip(params, call.args):
-            bind[name] = norm_expr(a, p.env)
-        for k in call.keywords:
-            if k.arg in params or k.arg in [a.arg for a in h.args.kwonlyargs]:
-                bind[k.arg] = norm_expr(k.value, p.env)
-        for name, d in zip(params[len(params) - len(defaults):], defaults):
-            bind.setdefault(name, d)
-        for a, d in zip(h.args.kwonlyargs, h.args.kw_defaults):
-            if d is not None:
-                bind.setdefault(a.arg, d)
-        if any(n not in bind for n in params):
+        argvals = [self._ev(p, a) for a in call.args]
+        kwvals = {k.arg: self._ev(p, k.value) for k in call.keywords}
+        bind = self._bind(h, is_method, argvals, kwvals)
+        if bind is None:
             return None
-        # nested functions see the caller's locals (closure); methods do not
         env = dict(p.env) if not is_method else {}
         env.update(bind)
         start = p.fork()
         start.env = env
         self.inline_depth += 1
-        saved_carried = self.carried
+        saved_carried, saved_helpers = self.carried, self.helpers
         try:
             self.carried = self._carried_names(h)
+            self.helpers = dict(self.helpers)
+            for n in h.body:
+                if isinstance(n, (ast.FunctionDef, ast.AsyncFunctionDef)):
+                    self.helpers.setdefault(n.name, n)
             outs = self._seq(h.body, [start], in_loop=False)
         finally:
-            self.carried = saved_carried
+            self.carried, self.helpers = saved_carried, saved_helpers
             self.inline_depth -= 1
         res = []
         for q in outs:
             rv = None
             if q.exit is not None and q.exit[0] == "return":
-                rv = q.exit[2] if len(q.exit) > 2 else None
+                rv = q.retval if q.retval is not None else ast.Constant(None)
                 q.exit = None
             elif q.exit is None:
                 rv = ast.Constant(None)
-            # restore the caller's environment (closure writes via nonlocal are not modelled)
-            q.env = dict(p.env)
+            q.retval = None
+            q.env = dict(p.env)     # the helper's locals do not survive (closure writes via nonlocal are not modelled)
             res.append((q, rv))
         return res
 
+    def _inline_pure_helpers(self, node):
+        """calls (anywhere in an expression) to helpers only this side has whose body has no effects are replaced by their value"""
+        if not self.helpers:
+            return node
+        summ = self
 
-def _ret_text(vn):
-    return text(vn) if vn is not None else "None"
+        class T(ast.NodeTransformer):
+            def visit_Lambda(self, n):
+                return n
 
+            def visit_Call(self, n):
+                n = self.generic_visit(n)
+                h, is_method = summ._resolve_helper(n)
+                if h is None or summ.inline_depth >= 3:
+                    return n
+                if any(isinstance(a, ast.Starred) for a in n.args) or any(k.arg is None for k in n.keywords):
+                    return n
+                bind = summ._bind(h, is_method, list(n.args), {k.arg: k.value for k in n.keywords})
+                if bind is None:
+                    return n
+                val = summ._pure_value(h, bind)
+                return val if val is not None else n
+        return T().visit(node)
 
-# `return` inside an inlined helper must hand back an AST, not text: patch Return handling to keep the AST in exit[2]
-_orig_stmt = Summariser._stmt
-
-
-def _stmt_keep_ast(self, s, p, in_loop):
-    if isinstance(s, ast.Return) and self.inline_depth > 0:
-        v = s.value
-        while isinstance(v, ast.Await):
-            v = v.value
-        if isinstance(v, ast.Call) and not _is_loggy_call(v):
-            inl = self._try_inline(v, p, in_loop)
-            if inl is not None:
-                res = []
-                for q, rv in inl:
-                    if q.exit is None:
-                        q.exit = ("return", text(rv) if rv is not None else "None", rv if rv is not None else ast.Constant(None))
-                    res.append(q)
-                return res
-        vn = norm_expr(v, p.env) if v is not None else ast.Constant(None)
-        self._emit_calls(p, vn)
-        p.exit = ("return", text(vn), vn)
-        return [p]
-    return _orig_stmt(self, s, p, in_loop)
-
-
-Summariser._stmt = _stmt_keep_ast
+    def _pure_value(self, h, bind):
+        """the value of helper h as one expression over its (already bound) parameters, or None if it has effects"""
+        if any(isinstance(n, (ast.Yield, ast.YieldFrom)) for n in ast.walk(h)):
+            return None
+        self.inline_depth += 1
+        saved_carried, saved_helpers = self.carried, self.helpers
+        try:
+            self.carried = self._carried_names(h)
+            try:
+                outs = self._seq(h.body, [Path(env=dict(bind))], in_loop=False)
+            except TooComplex:
+                return None
+        finally:
+            self.carried, self.helpers = saved_carried, saved_helpers
+            self.inline_depth -= 1
+        if any(e[0] != "test" for q in outs for e in q.trace):
+            return None
+        if any(q.exit is not None and q.exit[0] != "return" for q in outs):
+            return None
+        expr = None
+        for q in reversed(outs):
+            v = q.retval if q.retval is not None else ast.Constant(None)
+            if expr is None:
+                expr = v
+                continue
+            conds = [(_to_ast(f) if pol else ast.UnaryOp(ast.Not(), _to_ast(f))) for f, pol in q.cond]
+            c = conds[0] if len(conds) == 1 else (ast.BoolOp(ast.And(), conds) if conds else ast.Constant(True))
+            expr = ast.IfExp(c, v, expr)
+        return ast.fix_missing_locations(expr) if expr is not None else None
 
 
 # ---------------------------------------------------------------------------------------------------------- equivalence
+
+def _split(trace):
+    eff, before, cur = [], [], set()
+    for e in trace:
+        if e[0] == "test":
+            cur.add(e[1])
+        else:
+            eff.append(e)
+            before.append(frozenset(cur))
+    return eff, before
+
 
 def events_equal(a, b, diffs, ctx):
     if a[0] != b[0]:
@@ -872,53 +1174,108 @@ def events_equal(a, b, diffs, ctx):
     return a == b
 
 
-def tables_equal(ta, tb, diffs, ctx="", max_atoms=14):
-    atoms = sorted(ta.top_atoms() | tb.top_atoms())
-    if len(atoms) > max_atoms:
-        raise TooComplex("%d atoms" % len(atoms))
-    ok = True
-    seen = set()
-    for bits in itertools.product((False, True), repeat=len(atoms)):
-        asg = dict(zip(atoms, bits))
-        pa, pb = ta.select(asg), tb.select(asg)
-        if pa is None and pb is None:
-            continue
-        key = (id(pa), id(pb))
-        if key in seen:
-            continue
-        seen.add(key)
-        why = None
-        if pa is None or pb is None:
-            why = "only one side has a path"
-        elif exit_text(pa.exit[:2] if pa.exit else None) != exit_text(pb.exit[:2] if pb.exit else None):
-            why = "ends differently: `%s` vs reference `%s`" % (exit_text(pa.exit[:2] if pa.exit else None), exit_text(pb.exit[:2] if pb.exit else None))
-        elif len(pa.trace) != len(pb.trace):
-            why = "effects differ: [%s] vs reference [%s]" % ("; ".join(event_text(e) for e in pa.trace), "; ".join(event_text(e) for e in pb.trace))
+def _literals(cond):
+    """(fixed atoms, complex formulas) of a path condition; None if the literals contradict each other"""
+    fixed, rest = {}, []
+    for f, pol in cond:
+        g, v = f, pol
+        while g[0] == "not":
+            g, v = g[1], not v
+        if g[0] == "atom":
+            if fixed.get(g[1], v) != v:
+                return None
+            fixed[g[1]] = v
+        elif g[0] == "const":
+            if g[1] != v:
+                return None
         else:
-            for ea, eb in zip(pa.trace, pb.trace):
-                sub = []
-                if not events_equal(ea, eb, sub, ctx):
-                    why = "effect differs: `%s` vs reference `%s`" % (event_text(ea)[:200], event_text(eb)[:200])
-                    if sub:
-                        why = sub[0]
-                    break
-        if why:
-            ok = False
-            when = " and ".join(("" if v else "not ") + a for a, v in asg.items() if _relevant(a, pa, pb)) or "always"
-            diffs.append("%s[when %s] %s" % ((ctx + " ") if ctx else "", when, why))
-            if len(diffs) > 6:
-                return False
-    return ok
+            rest.append((g, v))
+    return fixed, rest
 
 
-def _relevant(atom, pa, pb):
-    for p in (pa, pb):
-        if p is None:
+def _compatible(la, lb, max_free=16):
+    """can the two path conditions hold together? -> a witness assignment or None"""
+    fa, ra = la
+    fb, rb = lb
+    for k, v in fa.items():
+        if fb.get(k, v) != v:
+            return None
+    fixed = dict(fa)
+    fixed.update(fb)
+    rest = ra + rb
+    if not rest:
+        return fixed
+    free = sorted(set().union(*[atoms_of(g) for g, _ in rest]) - set(fixed))
+    if len(free) > max_free:
+        raise TooComplex("%d free atoms in one pair of paths" % len(free))
+    for bits in itertools.product((False, True), repeat=len(free)):
+        asg = dict(fixed)
+        asg.update(zip(free, bits))
+        if all(evalf(g, asg) == v for g, v in rest):
+            return asg
+    return None
+
+
+def tables_equal(ta, tb, diffs, ctx="", live=()):
+    la = [_literals(p.cond) for p in ta.paths]
+    lb = [_literals(p.cond) for p in tb.paths]
+    ok = True
+    seen_a, seen_b = set(), set()
+    for i, pa in enumerate(ta.paths):
+        if la[i] is None:
             continue
-        for f, _ in p.cond:
-            if atom in atoms_of(f):
-                return True
-    return False
+        for j, pb in enumerate(tb.paths):
+            if lb[j] is None:
+                continue
+            asg = _compatible(la[i], lb[j])
+            if asg is None:
+                continue
+            seen_a.add(i)
+            seen_b.add(j)
+            why = None
+            if exit_text(pa.exit) != exit_text(pb.exit):
+                why = "ends differently: `%s` vs reference `%s`" % (exit_text(pa.exit), exit_text(pb.exit))
+            else:
+                (efa, tsa), (efb, tsb) = _split(pa.trace), _split(pb.trace)
+                alla = {e[1] for e in pa.trace if e[0] == "test"}
+                allb = {e[1] for e in pb.trace if e[0] == "test"}
+                if len(efa) != len(efb):
+                    why = "effects differ: [%s] vs reference [%s]" % ("; ".join(event_text(e) for e in efa)[:400], "; ".join(event_text(e) for e in efb)[:400])
+                else:
+                    both = alla & allb
+                    for k, (ea, eb) in enumerate(zip(efa, efb)):
+                        sub = []
+                        if not events_equal(ea, eb, sub, ctx):
+                            why = sub[0] if sub else "effect differs: `%s` vs reference `%s`" % (event_text(ea)[:200], event_text(eb)[:200])
+                            break
+                        if (tsa[k] & both) != (tsb[k] & both):
+                            why = "a condition is evaluated on the other side of effect `%s`: %s" % (event_text(ea)[:120], sorted((tsa[k] ^ tsb[k]) & both)[:3])
+                            break
+                if why is None and live:
+                    for n in sorted(live):
+                        va = text(pa.env[n]) if n in pa.env else n
+                        vb = text(pb.env[n]) if n in pb.env else n
+                        if va != vb:
+                            why = "`%s` ends as `%s` vs reference `%s`" % (n, va[:160], vb[:160])
+                            break
+            if why:
+                ok = False
+                rel = set()
+                for f, _ in pa.cond + pb.cond:
+                    atoms_of(f, rel)
+                when = " and ".join(("" if v else "not ") + a for a, v in sorted(asg.items()) if a in rel) or "always"
+                diffs.append("%s[when %s] %s" % ((ctx + " ") if ctx else "", when[:300], why))
+                if len(diffs) > 6:
+                    return False
+    for i, pa in enumerate(ta.paths):
+        if la[i] is not None and i not in seen_a:
+            ok = False
+            diffs.append("%sno reference path for `%s`" % ((ctx + " ") if ctx else "", " and ".join(("" if pol else "not ") + ftext(f) for f, pol in pa.cond)[:200]))
+    for j, pb in enumerate(tb.paths):
+        if lb[j] is not None and j not in seen_b:
+            ok = False
+            diffs.append("%sreference path `%s` has no counterpart" % ((ctx + " ") if ctx else "", " and ".join(("" if pol else "not ") + ftext(f) for f, pol in pb.cond)[:200]))
+    return ok
 
 
 def parse_reference(src):
@@ -926,33 +1283,66 @@ def parse_reference(src):
     fn = [n for n in tree.body if isinstance(n, (ast.FunctionDef, ast.AsyncFunctionDef))]
     if len(fn) < 1:
         raise ValueError("reference has no function")
-    helpers = {n.name: n for n in fn[1:]}
-    return fn[0], helpers
+    return fn[0], {n.name: n for n in fn[1:]}
+
+
+def _strip_annotations(args):
+    a = copy.deepcopy(args)
+    for x in a.posonlyargs + a.args + a.kwonlyargs + ([a.vararg] if a.vararg else []) + ([a.kwarg] if a.kwarg else []):
+        x.annotation = None
+    return a
 
 
 def compare(func_node, ref_src, helpers=None, keep=()):
     """-> (equal: bool, diffs: [str], stats: dict).  Raises TooComplex when either side is outside the fragment."""
     ref_fn, ref_helpers = parse_reference(ref_src)
-    # callables named by the reference are part of the interface: never inline them on the repo side
     named = set(keep)
     for n in ast.walk(ref_fn):
         if isinstance(n, ast.Call):
             d = _dotted(n.func)
             if d:
                 named.add(d)
-    sa = Summariser(func_node, helpers=helpers, keep=named)
-    sb = Summariser(ref_fn, helpers=ref_helpers, keep=())
-    ta, tb = sa.table(), sb.table()
+    ta = Summariser(func_node, helpers=helpers, keep=named).table()
+    tb = Summariser(ref_fn, helpers=ref_helpers, keep=()).table()
     diffs = []
     eq = tables_equal(ta, tb, diffs)
-    pa = [a.arg for a in func_node.args.posonlyargs + func_node.args.args + func_node.args.kwonlyargs]
-    pb = [a.arg for a in ref_fn.args.posonlyargs + ref_fn.args.args + ref_fn.args.kwonlyargs]
-    if pa != pb:
+    if ast.dump(_strip_annotations(func_node.args)) != ast.dump(_strip_annotations(ref_fn.args)):
         eq = False
-        diffs.insert(0, "parameters %s vs reference %s" % (pa, pb))
-    da = [text(d) for d in func_node.args.defaults + [d for d in func_node.args.kw_defaults if d is not None]]
-    db = [text(d) for d in ref_fn.args.defaults + [d for d in ref_fn.args.kw_defaults if d is not None]]
-    if da != db:
-        eq = False
-        diffs.insert(0, "parameter defaults %s vs reference %s" % (da, db))
-    return eq, diffs, {"paths": len(ta.paths), "ref_paths": len(tb.paths), "atoms": len(ta.top_atoms() | tb.top_atoms())}
+        diffs.insert(0, "signature `%s` vs reference `%s`" % (text(func_node.args), text(ref_fn.args)))
+    atoms = set()
+    for t in (ta, tb):
+        for p in t.paths:
+            for f, _ in p.cond:
+                atoms_of(f, atoms)
+    return eq, diffs, {"paths": len(ta.paths), "ref_paths": len(tb.paths), "atoms": len(atoms)}
+
+
+# ---------------------------------------------------------------------------------------------------------- regions
+
+def _region_fn(stmts):
+    fn = ast.FunctionDef(name="_region", args=ast.arguments(posonlyargs=[], args=[], vararg=None, kwonlyargs=[], kw_defaults=[], kwarg=None, defaults=[]),
+                         body=list(stmts), decorator_list=[], returns=None, type_comment=None)
+    if hasattr(fn, "type_params"):
+        fn.type_params = []
+    return fn
+
+
+def regions_equal(fstmts, rstmts, live, helpers_f=None, helpers_r=None, keep=()):
+    """are two statement sequences interchangeable?  -> (equal, diffs).  Raises TooComplex outside the fragment."""
+    carried = set()     # names assigned inside loops and read after the region stay opaque `set` events
+    for stmts in (fstmts, rstmts):
+        for s in stmts:
+            for lp in ast.walk(s):
+                if isinstance(lp, (ast.For, ast.AsyncFor, ast.While)):
+                    for n in ast.walk(lp):
+                        if isinstance(n, ast.Name) and isinstance(n.ctx, ast.Store) and n.id in live:
+                            carried.add(n.id)
+                    if isinstance(lp, (ast.For, ast.AsyncFor)):
+                        for n in ast.walk(lp.target):
+                            if isinstance(n, ast.Name):
+                                carried.discard(n.id)
+    ta = Summariser(_region_fn(fstmts), helpers=helpers_f, keep=keep, extra_carried=carried).table()
+    tb = Summariser(_region_fn(rstmts), helpers=helpers_r, keep=keep, extra_carried=carried).table()
+    diffs = []
+    eq = tables_equal(ta, tb, diffs, live=set(live) - carried)
+    return eq, diffs
